@@ -108,6 +108,26 @@ TS = {
                            ((2024, 2, 28, 12, 15, 0, 0), (2024, 2, 28, 12, 45, 0, 1))]),
     'span-inverted': dict(span=[((2024, 2, 28, 12, 20, 0, 0), (2024, 2, 28, 12, 10, 0, 0))]),
 }
+
+
+def _span_family():
+    """
+    Spans around DAY whose endpoints share days and times of day in every combination (an
+    endpoint dropped by a reconfiguration may share its time of day with one that is kept).
+    """
+    fam = {}
+    for sd in (27, 28):
+        for st in (10, 15):
+            for ed in (28, 29):
+                for et in (10, 15, 20):
+                    a, b = (2024, 2, sd, 12, st, 0, 0), (2024, 2, ed, 12, et, 0, 0)
+                    if a < b:
+                        fam[f"span-f{sd}{st}-{ed}{et}"] = dict(span=[(a, b)])
+    return fam
+
+
+SPAN_FAMILY = _span_family()
+TS.update(SPAN_FAMILY)
 CAT = {**TD, **TS}
 
 
@@ -247,6 +267,19 @@ def configs(tier):
             out.append(dict(kind='reconfig-days', blocks=(old, 'wed'), t0=t0,
                             span=int(1.4 * 24 * 3600 * US), read_lat=1, utc=False, actions=act2,
                             max_dev=0))
+    # S2e: a span reconfigured into a span sharing days / times of day with the old one, then a
+    # run over all remaining endpoints
+    fam = sorted(SPAN_FAMILY)
+    for old in fam:
+        for new in fam:
+            if new == old:
+                continue
+            t0 = DAY + 11 * 3600 * US + 50 * 60 * US
+            for when in (5 * 60 * US + 7, 22 * 60 * US + 7):    # 11:55: before the endpoints; 12:12: between them
+                act = (('reconfig', t0 + when, 0, new, 0),)
+                out.append(dict(kind='reconfig-days', blocks=(old, 'hour'), t0=t0,
+                                span=int(25 * 3600 * US), read_lat=1, utc=False, actions=act,
+                                max_dev=0))
     # S2c: a block's output event reconfigures another block that shares the boundary, i.e. the
     # reconfiguration arrives from inside the scheduler's own round (both set orders)
     for a, b, new in (('offhour', 'share', 'two'), ('offhour', 'adjacent', 'hour'),
